@@ -455,6 +455,7 @@ def real_tls_close(res, W):
     try:
         for peer in ("silent", "answers"):
             for sock_to in (None, 2):
+              for attempt in range(2):
                 def script(srv, conn, resp, peer=peer):
                     conn.sendall(resp)
                     if peer == "answers":
@@ -484,11 +485,14 @@ def real_tls_close(res, W):
                 th = threading.Thread(target=client, daemon=True)
                 th.start()
                 th.join(6.5)
+                slow = th.is_alive() or box.get("dt", 0) > 5.0
+                if slow and attempt == 0:
+                    continue  # wall clock: must reproduce
                 res.case(("real-tls-close", peer, sock_to), nontrivial=True)
                 res.count("real_tls_close_runs")
                 res.count("close_durations_checked")
                 case = {"gen": "real-tls-close", "peer": peer, "socket_timeout": sock_to}
-                if th.is_alive() or box.get("dt", 0) > 5.0:
+                if slow:
                     res.violation("close-timeout-exceeded", f"real TLS connection, peer {peer}, socket timeout {sock_to}: close(timeout=0.3) had not returned after {'6.5' if th.is_alive() else round(box['dt'], 2)} s",
                                   case, step_call="close", peer="tls-" + peer, socket_timeout=repr(sock_to))
                 elif "exc" in box and "dt" not in box:
@@ -496,5 +500,6 @@ def real_tls_close(res, W):
                 elif box.get("sock_after") is not None:
                     res.violation("transport-not-released", f"real TLS connection, peer {peer}: socket still attached after close()", case, step_call="close", via="close", prior="tls")
                 srv.join(0.1)
+                break
     finally:
         shutil.rmtree(d, ignore_errors=True)
